@@ -440,7 +440,7 @@ Proof.
   - (* ONew *)
     destruct (new_tc s (T, P)) as [s1 tr].
     match goal with |- context [let '(a, b) := ?x in _] => destruct x as [s2 ir] end.
-    destruct (new_obj s2 (mkobj ir tr [])) as [s3 n]. cbn [fst w_cs].
+    destruct (new_obj s2 _) as [s3 n]. cbn [fst w_cs].
     eapply cr_fresh; apply cr_refl.
   - (* ORead *)
     destruct (get_property (mkw s c) i name flow nophase) as [w1 r] eqn:E. cbn [fst].
@@ -456,16 +456,15 @@ Proof.
     unfold reset_cache. eapply creach_reset_list; apply cr_refl.
   - (* OMix *)
     destruct energy.
-    + rewrite lift_cs.
-      apply creach_read_all with (l := srcs) (s := mix_flows (fst (set_P s i
-          (fold_right (fun j m => Qmin m (snd (tc_of s (o_tc (obj_of s j)))))
-             (snd (tc_of s (o_tc (obj_of s (hd O srcs))))) srcs))) i srcs).
+    + rewrite lift_cs. cbn [w_cs].
+      apply creach_read_all with (l := srcs) (s := s).
       * apply Forall_forall. intros j Hj. apply GV. cbn. right. exact Hj.
       * apply cr_refl.
     + cbn [fst w_cs]. apply cr_refl.
   - (* OView *)
     destruct (i_multi (imol_of s (o_imol (obj_of s i)))).
-    + destruct (find_view p (o_views (obj_of s i))); [apply cr_refl|].
+    + destruct (negb (o_hasv (obj_of s i))); [apply cr_refl|].
+      destruct (find_view p (o_views (obj_of s i))); [apply cr_refl|].
       destruct (index_of p (i_phases (imol_of s (o_imol (obj_of s i))))) as [k|]; [|apply cr_refl].
       destruct (nth_error (arr s (i_data (imol_of s (o_imol (obj_of s i))))) k) as [rr|]; [|apply cr_refl].
       destruct (new_imol s _) as [s1 ir]. destruct (new_obj s1 _) as [s2 n]. cbn [fst w_cs].
@@ -628,4 +627,302 @@ Proof.
   - apply Bool.andb_true_iff in HL as [H1 H2]. apply Bool.andb_true_iff in H1 as [Hp Hz]. cbn in Hp, Hz.
     apply Nat.eqb_eq in Hp; subst p'. cbn [fst snd].
     rewrite (IH l' H2). rewrite (stub_calc1_respects pkg name (Some p) z z' T T' P P' Hz HT HP). reflexivity.
+Qed.
+
+Definition rd_equivb (a b : rd) : bool :=
+  match a, b with RNone, RNone => true | RVal x, RVal y => Qeq_bool x y | _, _ => false end.
+Lemma rd_equivb_false a b : rd_equivb a b = false -> ~ rd_equiv a b.
+Proof.
+  intros H E. destruct E as [|x y E]; cbn in H; [discriminate|].
+  apply Qeq_bool_iff in E. congruence.
+Qed.
+(* ---------- object table alignment: objs (state side) and cobjs (cache side) grow together ---------- *)
+Lemma new_rows_objs s vs s' rs : new_rows s vs = (s', rs) -> objs s' = objs s.
+Proof.
+  revert s s' rs; induction vs as [|v t IH]; intros s s' rs H; cbn in H.
+  - injection H as <- _. reflexivity.
+  - destruct (new_rows (set_rows s (rows s ++ [v])) t) as [s2 rs2] eqn:E.
+    injection H as <- _. apply IH in E. exact E.
+Qed.
+
+Lemma map_rows_objs f rs s : objs (map_rows s f rs) = objs s.
+Proof. revert s; induction rs as [|r t IH]; intros s; cbn; auto. rewrite IH. reflexivity. Qed.
+
+Lemma copy_data_objs s im s' d : copy_data s im = (s', d) -> objs s' = objs s.
+Proof.
+  unfold copy_data. destruct (i_multi im).
+  - destruct (new_rows s _) as [s1 rs] eqn:E. intros H. injection H as <- _. apply new_rows_objs in E. exact E.
+  - intros H. injection H as <- _. reflexivity.
+Qed.
+
+Lemma copy_imol_with_objs s im d s' r : copy_imol_with s im d = (s', r) -> objs s' = objs s.
+Proof.
+  unfold copy_imol_with. destruct (i_multi im); intros H; injection H as <- _; reflexivity.
+Qed.
+
+Lemma set_pcell_objs s r p : objs (fst (set_pcell s r p)) = objs s.
+Proof. unfold set_pcell. destruct (p_locked _); [destruct (Nat.eqb _ _)|]; reflexivity. Qed.
+
+Ltac pairs :=
+  repeat match goal with
+  | |- context [let (_, _) := ?x in _] =>
+      let E := fresh "E" in destruct x as [? ?] eqn:E;
+      first [apply new_rows_objs in E | apply copy_data_objs in E | apply copy_imol_with_objs in E
+            | (injection E as <- <-) | idtac]
+  end.
+
+Definition nob (s : state) := length (objs s).
+
+Lemma multi_to_single_nob s i p : nob (multi_to_single s i p) = nob s.
+Proof. unfold nob, multi_to_single. cbn. apply upd_length. Qed.
+
+Lemma set_phase_nob s i p : nob (fst (set_phase s i p)) = nob s.
+Proof.
+  unfold set_phase. destruct (i_multi _); cbn [fst ok]; [apply multi_to_single_nob|].
+  unfold nob. rewrite set_pcell_objs. reflexivity.
+Qed.
+
+Lemma set_flow_nob s i p j v : nob (fst (set_flow s i p j v)) = nob s.
+Proof.
+  unfold set_flow. destruct (i_multi _); [|reflexivity].
+  destruct (index_of _ _); [|reflexivity]. destruct (nth_error _ _); reflexivity.
+Qed.
+
+Lemma scale_nob s i k : nob (fst (scale s i k)) = nob s.
+Proof. unfold scale, nob; cbn. rewrite map_rows_objs. reflexivity. Qed.
+
+Lemma fmol_nob s i k : nob (fst (fmol_times s i k)) = nob s.
+Proof. unfold fmol_times. destruct (qzerob _); [reflexivity | apply scale_nob]. Qed.
+
+Lemma empty_nob s i : nob (fst (empty s i)) = nob s.
+Proof. unfold empty, nob; cbn. rewrite map_rows_objs. reflexivity. Qed.
+
+Lemma link_nob s i j a b c : nob (fst (link_with s i j a b c)) = nob s.
+Proof.
+  unfold link_with. destruct (negb _); [reflexivity|]. cbn [fst ok]. unfold nob.
+  destruct c; cbn; rewrite ?upd_length; reflexivity.
+Qed.
+
+Lemma unlink_nob s i : nob (fst (unlink s i)) = nob s.
+Proof.
+  unfold unlink. destruct (_ && _)%bool; [reflexivity|].
+  destruct (i_multi (imol_of s (o_imol (obj_of s i)))) eqn:M.
+  - destruct (copy_data s _) as [s2 d] eqn:E. apply copy_data_objs in E.
+    unfold nob; cbn. rewrite upd_length. rewrite E. reflexivity.
+  - unfold new_p. destruct (copy_data _ _) as [s2 d] eqn:E. apply copy_data_objs in E.
+    unfold nob; cbn. rewrite upd_length. rewrite E. reflexivity.
+Qed.
+
+Lemma single_to_multi_nob s i ps : nob (single_to_multi s i ps) = nob s.
+Proof.
+  unfold single_to_multi. destruct (new_rows s _) as [s1 rs] eqn:E. apply new_rows_objs in E.
+  unfold nob; cbn. rewrite upd_length, E. reflexivity.
+Qed.
+
+Lemma multi_rephase_nob s i ps : nob (fst (multi_rephase s i ps)) = nob s.
+Proof.
+  unfold multi_rephase. destruct (existsb _ _); [reflexivity|].
+  destruct (new_rows s _) as [s1 rs] eqn:E. apply new_rows_objs in E.
+  cbn [new_arr new_imol fst snd].
+  match goal with |- context [fold_left ?f ?l ?a0] =>
+    assert (G : forall l0 st kept, nob (fst (fold_left f l0 (st, kept))) = nob st) end.
+  { induction l0 as [|[p n] t IH]; intros st kept; cbn [fold_left]; auto.
+    cbn [fst snd]. destruct (index_of p ps); [|apply IH].
+    cbn [new_imol]. rewrite IH. unfold nob; cbn. apply upd_length. }
+  match goal with |- context [fold_left ?f ?l (?st, ?k)] =>
+    specialize (G l st k); destruct (fold_left f l (st, k)) as [s4 vs] end.
+  cbn [fst] in G. unfold nob in *; cbn. rewrite upd_length, G. cbn. rewrite E. reflexivity.
+Qed.
+
+Lemma ensure_views_nob s i : nob (ensure_views s i) = nob s.
+Proof. unfold ensure_views, nob. destruct (is_multi s i); [cbn; apply upd_length | reflexivity]. Qed.
+
+Lemma copy_phase_nob s i j : nob (fst (copy_phase s i j)) = nob s.
+Proof.
+  unfold copy_phase. destruct (i_multi _); [reflexivity|]. destruct (i_multi _); [reflexivity|].
+  unfold nob. rewrite set_pcell_objs. reflexivity.
+Qed.
+
+Lemma copy_like_nob s i j : nob (fst (copy_like_11 s i j)) = nob s.
+Proof.
+  unfold copy_like_11. destruct (Nat.eqb _ _); [reflexivity|].
+  destruct (set_pcell _ _ _) as [s2 [e|]] eqn:E; cbn [fst];
+    replace s2 with (fst (set_pcell (wr_row s (i_data (imol_of s (o_imol (obj_of s i))))
+       (row s (i_data (imol_of s (o_imol (obj_of s j))))))
+       (i_ph (imol_of s (o_imol (obj_of s i)))) (phase_of s (imol_of s (o_imol (obj_of s j)))))) by (rewrite E; reflexivity);
+    unfold nob; cbn; rewrite ?set_pcell_objs; reflexivity.
+Qed.
+
+Lemma mix_flows_nob s i srcs : nob (mix_flows s i srcs) = nob s.
+Proof.
+  unfold mix_flows, nob. cbn.
+  destruct (map _ srcs) as [|f t]; [reflexivity|].
+  destruct (forallb _ t); [rewrite set_pcell_objs|]; reflexivity.
+Qed.
+
+Lemma reset_chem_nob s i : nob (reset_chem s i) = nob s.
+Proof.
+  unfold reset_chem.
+  set (im := imol_of s (o_imol (obj_of s i))).
+  destruct (i_multi im) eqn:M.
+  - destruct (new_rows s _) as [sa rs] eqn:E. apply new_rows_objs in E. cbn [new_arr fst snd].
+    match goal with |- nob (fold_left ?f ?l ?s0) = _ =>
+      assert (G : forall l0 s1, nob (fold_left f l0 s1) = nob s1) end.
+    { induction l0 as [|[p n] t IH]; intros s1; cbn [fold_left]; auto.
+      rewrite IH. cbn [fst snd]. destruct (index_of p (i_phases im)); [|reflexivity].
+      unfold nob; cbn. apply upd_length. }
+    rewrite G. unfold nob; cbn. rewrite E. reflexivity.
+  - destruct (copy_data s im) as [s1 d] eqn:E. apply copy_data_objs in E.
+    unfold nob; cbn. rewrite E. reflexivity.
+Qed.
+
+Section Align.
+Variable calc1 : nat -> nat -> option phase -> vec -> Q -> Q -> Q.
+Variable calcx : nat -> nat -> list (phase * vec) -> Q -> Q -> Q.
+Variable shared_key : bool.
+
+Definition aligned (w : world) : Prop := length (objs (w_st w)) = length (cobjs (w_cs w)).
+
+Lemma reset_cache_len pk s c i : length (cobjs (reset_cache pk s c i)) = length (cobjs c).
+Proof. unfold reset_cache. apply (reset_cache_list_nobj pk). Qed.
+
+Lemma read_all_aligned l w : aligned w -> aligned (read_all calc1 calcx w l).
+Proof.
+  revert w; induction l as [|j t IH]; intros w A; cbn; auto.
+  apply IH. unfold aligned in *. rewrite get_property_st, get_property_cobjs. exact A.
+Qed.
+
+Lemma read_all_st l w : w_st (read_all calc1 calcx w l) = w_st w.
+Proof. revert w; induction l as [|j t IH]; intros w; cbn; auto. rewrite IH. apply get_property_st. Qed.
+
+Lemma lift_aligned w r : nob (fst r) = nob (w_st w) -> aligned w -> aligned (fst (lift w r)).
+Proof. unfold aligned, nob. cbn. intros -> A. exact A. Qed.
+
+Lemma step_aligned w o : aligned w -> aligned (fst (step calc1 calcx shared_key w o)).
+Proof.
+  intros A. unfold step. destruct (forallb _ _); [|exact A].
+  destruct w as [s c]. unfold aligned in A; cbn [w_st w_cs] in A.
+  destruct o; unfold step_valid; cbn [w_st w_cs].
+  - (* ONew *)
+    unfold new_tc.
+    match goal with |- context [let '(a, b) := ?x in _] => destruct x as [s2 ir] eqn:E end.
+    assert (O2 : objs s2 = objs s).
+    { destruct flows as [|d [|d2 t]].
+      - cbn in E. injection E as <- _. reflexivity.
+      - cbn in E. injection E as <- _. reflexivity.
+      - destruct (new_rows _ (d :: d2 :: t)) as [sa rs] eqn:E2. apply new_rows_objs in E2.
+        cbn in E. injection E as <- _. cbn. exact E2. }
+    unfold aligned, new_obj, new_cobj_fresh; cbn. rewrite !app_length, O2, A. reflexivity.
+  - (* ORead *)
+    destruct (get_property calc1 calcx (mkw s c) i name flow nophase) as [w1 r] eqn:E. cbn [fst].
+    replace w1 with (fst (get_property calc1 calcx (mkw s c) i name flow nophase)) by (rewrite E; reflexivity).
+    unfold aligned. rewrite get_property_st, get_property_cobjs. exact A.
+  - apply lift_aligned; [reflexivity | exact A].
+  - apply lift_aligned; [reflexivity | exact A].
+  - apply lift_aligned; [apply set_phase_nob | exact A].
+  - apply lift_aligned; [apply set_flow_nob | exact A].
+  - apply lift_aligned; [apply scale_nob | exact A].
+  - apply lift_aligned; [apply fmol_nob | exact A].
+  - apply lift_aligned; [apply empty_nob | exact A].
+  - (* OProxy *)
+    unfold aligned, st_proxy, new_cobj_proxy; cbn. destruct shared_key; cbn; rewrite !app_length, A; reflexivity.
+  - (* OFlowProxy *)
+    unfold aligned, st_flow_proxy, new_cobj_fresh.
+    destruct (copy_imol_with s _ _) as [s1 ir] eqn:E. apply copy_imol_with_objs in E.
+    cbn. rewrite !app_length, E, A. reflexivity.
+  - (* OCopy *)
+    unfold aligned, st_copy, new_cobj_fresh.
+    destruct (copy_data s _) as [s1 d] eqn:E. apply copy_data_objs in E.
+    destruct (copy_imol_with s1 _ _) as [s2 ir] eqn:E2. apply copy_imol_with_objs in E2.
+    cbn. rewrite !app_length, E2, E, A. reflexivity.
+  - apply lift_aligned; [apply link_nob | exact A].
+  - (* OUnlink *)
+    pose proof (unlink_nob s i) as U. destruct (unlink s i) as [s1 [e|]]; cbn [fst] in U |- *;
+      unfold aligned, nob in *; cbn [w_st w_cs]; rewrite ?reset_cache_len; lia.
+  - apply lift_aligned; [apply copy_like_nob | exact A].
+  - apply lift_aligned; [reflexivity | exact A].
+  - apply lift_aligned; [reflexivity | exact A].
+  - apply lift_aligned; [apply copy_phase_nob | exact A].
+  - (* OMix *)
+    match goal with |- context [mix_flows ?a ?b ?c] => pose proof (mix_flows_nob a b c) as MF; set (s2 := mix_flows a b c) in * end.
+    assert (A0 : aligned (mkw s c)) by exact A.
+    destruct energy.
+    + pose proof (read_all_aligned srcs _ A0) as A1. unfold aligned in A1. rewrite read_all_st in A1. cbn [w_st] in A1.
+      apply lift_aligned; [reflexivity|]. unfold aligned, nob in *; cbn in *; lia.
+    + unfold aligned, nob in *; cbn in *; lia.
+  - (* OMix1 *)
+    pose proof (mix_flows_nob s i [j]) as MF. unfold aligned, nob in *; cbn [fst w_st w_cs]. lia.
+  - (* OView *)
+    destruct (i_multi _).
+    + destruct (negb _); [exact A|].
+      destruct (find_view _ _); [exact A|]. destruct (index_of _ _); [|exact A].
+      destruct (nth_error _ _); [|exact A].
+      unfold aligned, new_imol, new_obj, new_cobj_fresh; cbn. rewrite upd_length, !app_length, A. reflexivity.
+    + destruct (Nat.eqb _ _); exact A.
+  - (* OSetPhases *)
+    destruct ps as [|p [|p2 ps]]; try (apply lift_aligned; [apply set_phase_nob | exact A]);
+    (destruct (i_multi _);
+     [ match goal with |- context [if ?b then _ else _] => destruct b end; [exact A|];
+       match goal with |- context [multi_rephase ?a1 ?a2 ?a3] =>
+         pose proof (multi_rephase_nob a1 a2 a3) as U; destruct (multi_rephase a1 a2 a3) as [s1 [e|]] end;
+       cbn [fst] in U |- *; unfold aligned, nob in *; cbn [w_st w_cs]; rewrite ?reset_cache_len; lia
+     | pose proof (single_to_multi_nob s i) as U; unfold aligned, nob in *; cbn [fst w_st w_cs]; rewrite U; exact A ]).
+  - (* OResetCache *)
+    pose proof (ensure_views_nob s i) as U. unfold aligned, nob in *; cbn [fst w_st w_cs]. rewrite reset_cache_len. lia.
+  - (* OSetPkg *)
+    pose proof (reset_chem_nob (ensure_views s i) i) as U. pose proof (ensure_views_nob s i) as U2.
+    unfold aligned, nob in *; cbn [fst w_st w_cs]. rewrite reset_cache_len. lia.
+  - exact A.
+Qed.
+
+Lemma run_aligned ops w : aligned w -> aligned (run_world calc1 calcx shared_key w ops).
+Proof.
+  revert w; induction ops as [|o t IH]; intros w A; [exact A|].
+  rewrite run_world_cons. apply IH, step_aligned, A.
+Qed.
+End Align.
+
+(* ---------- a read equals the read on a freshly constructed stream in the same state ---------- *)
+Lemma rd_equiv_sym a b : rd_equiv a b -> rd_equiv b a.
+Proof. intros [|x y E]; constructor. symmetry; exact E. Qed.
+Lemma rd_equiv_trans a b c : rd_equiv a b -> rd_equiv b c -> rd_equiv a c.
+Proof.
+  intros [|x y E] H; inversion H; subst; constructor.
+  etransitivity; eassumption.
+Qed.
+
+Lemma step_new_cs calc1 calcx sk w fl ps T P pkg :
+  w_cs (fst (step calc1 calcx sk w (ONew fl ps T P pkg))) = new_cobj_fresh (w_cs w) pkg.
+Proof.
+  destruct w as [s c]. unfold step. cbn [op_objs forallb]. unfold step_valid. cbn [w_st w_cs].
+  destruct (new_tc s (T, P)) as [s1 tr].
+  match goal with |- context [let '(a, b) := ?x in _] => destruct x as [s2 ir] end.
+  destruct (new_obj s2 _) as [s3 n]. reflexivity.
+Qed.
+
+Lemma equals_fresh_stream calc1 calcx :
+  calc1_respects calc1 -> calcx_respects calcx ->
+  forall ops i name flow nophase d p T P,
+    let w' := run_world calc1 calcx true w0 ops in
+    (i < length (cobjs (w_cs w')))%nat ->
+    pstate_of (w_st w') i = mkps false [p] [d] T P ->
+    let wn := fst (step calc1 calcx true w' (ONew [d] [p] T P (c_pkg (cobj_of (w_cs w') i)))) in
+    rd_equiv (snd (get_property calc1 calcx w' i name flow nophase))
+             (snd (get_property calc1 calcx wn (length (objs (w_st w'))) name flow nophase)).
+Proof.
+  intros H1 Hx ops i name flow nophase d p T P w' Hi HP wn.
+  assert (A : aligned w') by (apply run_aligned; reflexivity).
+  assert (I' : Inv calc1 calcx (w_cs w')) by exact (run_inv calc1 calcx true H1 Hx ops w0 (or_introl eq_refl) (Inv_cs0 calc1 calcx)).
+  pose proof (new_stream_pstate calc1 calcx true w' d p T P (c_pkg (cobj_of (w_cs w') i))) as [NP NA].
+  destruct (NA A) as [NK NL]. fold wn in NP, NK, NL.
+  assert (In' : Inv calc1 calcx (w_cs wn)).
+  { unfold wn. rewrite step_new_cs. apply new_cobj_fresh_inv. exact I'. }
+  assert (Hn : (length (objs (w_st w')) < nobj (w_cs wn))%nat).
+  { unfold nobj, wn. rewrite step_new_cs. unfold new_cobj_fresh; cbn. rewrite app_length; cbn.
+    unfold aligned in A. lia. }
+  eapply rd_equiv_trans; [apply (get_property_spec calc1 calcx H1 Hx w' i); [exact I' | exact Hi]|].
+  apply rd_equiv_sym.
+  eapply rd_equiv_trans; [apply (get_property_spec calc1 calcx H1 Hx wn _); [exact In' | exact Hn]|].
+  rewrite (spec_read_pstate calc1 calcx wn (length (objs (w_st w'))) w' i); [apply rd_equiv_refl| |exact NK].
+  rewrite NP, HP. reflexivity.
 Qed.
